@@ -22,6 +22,8 @@ pub enum ReadStep {
 pub enum WriteStep {
     /// accept up to k bytes
     Accept(usize),
+    /// accept everything offered except the last k bytes (at least one byte): leaves a short tail behind
+    AllBut(usize),
     Pending,
     Zero,
     Err(io::ErrorKind),
@@ -167,7 +169,12 @@ impl AsyncWrite for MockIo {
                 this.write_errors += 1;
                 Poll::Ready(Err(io::Error::new(k, "injected write error")))
             }
-            WriteStep::Accept(k) => {
+            WriteStep::Accept(_) | WriteStep::AllBut(_) => {
+                let k = match step {
+                    WriteStep::AllBut(t) => buf.len().saturating_sub(t).max(1),
+                    WriteStep::Accept(k) => k,
+                    _ => unreachable!(),
+                };
                 let n = k.min(buf.len());
                 if n < buf.len() {
                     this.short_writes += 1;
